@@ -264,7 +264,7 @@ collector_instance!(c17_collect_full_2, [2], [BlobType::Data], IndexType::Full);
 collector_instance!(c17_collect_trees_0_2, [0, 2], [BlobType::Tree, BlobType::Data], IndexType::OnlyTrees);
 //@ harness: c17_collect_full_2 c17_collect_full_2_1 c17_collect_ids_2_1 c17_collect_full_1_1_2 c17_collect_ids_2_2 c17_collect_trees_2_1
 //@ prop: C17
-//@ tier: thorough
+//@ tier: experimental
 //@ timeout: 2400
 //@ mem: 30
 //@ unwindset: ^memcmp#0=34
@@ -435,7 +435,7 @@ macro_rules! e2e_instance {
 //@ instance: c17_e2e_full_2 c17_e2e_full_2_1 c17_e2e_ids_2_1 c17_e2e_trees_1_2 c17_e2e_full_2_2
 //@ harness: c17_e2e_full_2 c17_e2e_full_2_1
 //@ prop: C17
-//@ tier: thorough
+//@ tier: experimental
 //@ timeout: 3000
 //@ mem: 30
 //@ unwindset: ^memcmp#0=34
@@ -449,7 +449,7 @@ e2e_instance!(c17_e2e_full_2, [2], [BlobType::Data], IndexType::Full);
 e2e_instance!(c17_e2e_full_2_1, [2, 1], [BlobType::Data, BlobType::Tree], IndexType::Full);
 //@ harness: c17_e2e_ids_2_1 c17_e2e_trees_1_2 c17_e2e_full_2_2
 //@ prop: C17
-//@ tier: thorough
+//@ tier: experimental
 //@ timeout: 3000
 //@ mem: 16
 //@ unwindset: ^memcmp#0=34
